@@ -349,7 +349,15 @@ class BinaryGroup(GroupNode):
     has_boost = False
 
     def query(self, parser):
-        assert len(self.nodes) == 2
+        # Malformed input (an operator at the edge of a group) can leave this
+        # group with fewer than two operands
+        if not self.nodes:
+            return None
+        elif len(self.nodes) == 1:
+            return self.nodes[0].query(parser)
+        elif len(self.nodes) > 2:
+            raise QueryParserError("Too many operands for %s"
+                                   % self.__class__.__name__)
 
         qa = self.nodes[0].query(parser)
         qb = self.nodes[1].query(parser)
@@ -373,6 +381,9 @@ class Wrapper(GroupNode):
     merging = False
 
     def query(self, parser):
+        if not self.nodes:
+            # Malformed input, e.g. a NOT with nothing after it
+            return None
         q = self.nodes[0].query(parser)
         if q:
             return attach(self.qclass(q), self)
@@ -482,6 +493,11 @@ class RangeNode(SyntaxNode):
                 except QueryParserError:
                     e = sys.exc_info()[1]
                     return attach(query.error_query(e), self)
+
+            if not field.format:
+                # An unindexed (e.g. STORED) field: nothing to search
+                return attach(query.error_query("Field %r is not indexed"
+                                                % fieldname), self)
 
             if start:
                 start = get_single_text(field, start, tokenize=False,
